@@ -175,6 +175,7 @@ pub fn op(cfg: ProgCfg, nkeys: usize, nblobs: usize) -> BoxedStrategy<Op> {
             .boxed(),
     );
     add(m.damage_content, (gen::addr_ref(nblobs), gen::cdamage(nblobs)).prop_map(|(addr, dmg)| Op::DamageContent { addr, dmg }).boxed());
+    add(m.damage_content.min(1), prop_oneof![Just(1u32), Just(30u32), Just(4000u32)].prop_map(|days| Op::AgeCache { days }).boxed());
     add(m.damage_bucket, (k(), gen::bdamage()).prop_map(|(key, dmg)| Op::DamageBucket { key, dmg }).boxed());
     add(
         m.foreign,
@@ -283,7 +284,7 @@ pub fn remap_op(op: &mut Op, fk: &dyn Fn(usize) -> usize, fb: &dyn Fn(usize) -> 
         }
         Op::ReadHash { addr } | Op::Exists { addr } | Op::RemoveHash { addr } => remap_addr(addr, fb),
         Op::Stream { by, .. } | Op::Extract { by, .. } => remap_by(by, fk, fb),
-        Op::List | Op::Clear | Op::IdxLs | Op::Chdir { .. } | Op::TmpElsewhere | Op::RemoveTarget { .. } | Op::SwitchCache => {}
+        Op::List | Op::Clear | Op::IdxLs | Op::Chdir { .. } | Op::TmpElsewhere | Op::RemoveTarget { .. } | Op::SwitchCache | Op::AgeCache { .. } => {}
         Op::RemoveHashMulti { addr, also } => {
             remap_addr(addr, fb);
             *also = fb(*also);
